@@ -244,11 +244,11 @@ func blsVectors(r *run) {
 			ks = append(ks, k)
 		}
 		sort.Strings(ks)
-		if r.quick && len(ks) > 6 {
+		if r.quick && len(ks) > 4 {
 			// the quick tier keeps a spread of the files (pairings are slow)
 			var sel []string
 			for i, k := range ks {
-				if i%((len(ks)+5)/6) == 0 {
+				if i%((len(ks)+3)/4) == 0 {
 					sel = append(sel, k)
 				}
 			}
